@@ -16,7 +16,7 @@ CLAIMS = {
                 "producer invariant, environment raisers) shows that for every peer byte sequence the exception classes escaping "
                 "LAN.send / LAN.authenticate / Device.authenticate / Device._send_command stay inside the allowed sets (a function re-entering "
                 "itself on a peer-selected path is a RecursionError raiser). "
-                "Over-approximates paths (no feasibility reasoning), so 'holds' covers all inputs; library behaviour comes from a frozen model.",
+                "Over-approximates paths (no feasibility reasoning), so 'holds' covers all inputs; library behaviour comes from a frozen model. Whether the transport is closing is peer-decided, and a predicate property that answers under a peer-decided branch gives a peer-decided answer (asserting it is a raiser).",
         "note": TRUST + "library model sa/libmodel.py; unknown library calls on tainted data are assumed benign and listed in the evidence",
         "technique": "taint + length-fact + may-raise effect analysis over the call graph (static analysis)",
     },
@@ -68,7 +68,7 @@ CLAIMS = {
                 "residues of (len+2) mod 16; declared size = actual − 8; tag over header ‖ plaintext on both sides; decoder ranges, pad "
                 "nibble, counter width agree; the payload strip is decided for pad = 0 and pad > 0 (x[a:-0] is empty); every decoded "
                 "return is dominated by the full-width SHA-256 equality and rejections are ProtocolErrors; the unauthenticated type nibble "
-                "selects the handshake branch only while a handshake is pending (flag set before the write, lowered by a finally / catch-all on every exit, named or not - also through extracted helpers). write() hands the encoding selected by the packet type, unmodified, to the transport.",
+                "selects the handshake branch only while a handshake is pending (flag set before the write, lowered by a finally / catch-all on every exit, named or not - also through extracted helpers). write() hands the encoding selected by the packet type, unmodified, to the transport. The reassembly premises of C04 are re-run (a response only reaches the decoder if it is delivered whole, whatever arrived before it).",
         "note": TRUST + "SHA-256 / AES-CBC implementations; Python slicing semantics",
         "technique": "byte-sequence layout + congruence + interval domains, path-condition dominance (static analysis)",
     },
@@ -94,7 +94,7 @@ CLAIMS = {
                 "16 settable fields at once (guard regions for the set-point and half-degree flag are abstract elements); the vendor "
                 "reference decode applied to the abstract 24-byte body returns every source field (left inverse ⇒ distinct states give "
                 "distinct bodies); no bit collisions, no lossy masks, every byte ≤ 255; the def-use chain setter → attribute → apply → command "
-                "attribute passes every requested value unchanged. All 62 set-points × modes × flags are one abstract state. The CLI's ordering obligation (nothing refreshes the device between assignment and apply, C20.e) is imported. Deprecated setting aliases are transparent wrappers, and a setter writes no other field of the requested state.",
+                "attribute passes every requested value unchanged. All 62 set-points × modes × flags are one abstract state. The CLI's ordering obligation (nothing refreshes the device between assignment and apply, C20.e) is imported. Deprecated setting aliases are transparent wrappers, and a setter writes no other field of the requested state. apply() fills the command before it first suspends (a snapshot of the requested state; suspension-point analysis).",
         "note": TRUST + "transcription of the vendor layout rows (each cites its Lua line, constants re-read from the Lua)",
         "technique": "abstract interpretation in a bit-field/interval/affine domain with trace partitioning (static analysis)",
     },
@@ -103,7 +103,7 @@ CLAIMS = {
                 "field a source over its full raw domain, don't-care bits free, symbolic length >= 16); in every guard region each of the 19 "
                 "attributes equals the reported field, optional fields are None exactly where the length does not cover them; "
                 "_parse_temperature's decision tree is checked leaf by leaf in a linear-form domain with the trunc relation (None iff "
-                "0xFF, within one degree, exact tenths in Celsius); _update_state stores every attribute on every way through its state branch, converts the custom fan speed inside a handler for the enum's ValueError and, with the getters, maps each attribute unchanged. The constructor hands every payload of reportable length to _parse, and the checksum formula the validator uses (C12.a) is imported. No _missing_ hook turns unknown fan speeds into members, and refresh applies every response it collected.",
+                "0xFF, within one degree, exact tenths in Celsius); _update_state stores every attribute on every way through its state branch, converts the custom fan speed inside a handler for the enum's ValueError and, with the getters, maps each attribute unchanged. The constructor hands every payload of reportable length to _parse, and the checksum formula the validator uses (C12.a) is imported. No _missing_ hook turns unknown fan speeds into members, and refresh applies every response it collected. LAN.send returns the frames of an exchange in arrival order, so the latest report is the one exposed.",
         "note": TRUST + "vendor layout rows (Lua lines cited); exact rationals stand for floats of halves/tenths",
         "technique": "abstract interpretation in a bit-field/linear-form domain with trace partitioning + def-use mapping (static analysis)",
     },
@@ -113,7 +113,7 @@ CLAIMS = {
                 "a response, R timeouts ⇒ TimeoutError after exactly R transmissions, every failure exit disconnects first and leaves as "
                 "timeout/protocol error; plus must-pass-through reconnect in send, _disconnect/_connect/_alive/alive/write facts from "
                 "value-flow terms (the wait on the receive queue has a timeout that no handler below the retry loop swallows; no self._protocol.<x> where the path condition, short-circuit operands or every caller's guard leave it possibly None) and the may-raise analysis with environment raisers for connect failures and Device._send_command; the "
-                "reassembly premises of C04 (every response that arrives is delivered) and the session discipline of C07 (re-authentication on V3) are re-run as premises. A handshake is offered only on a connection found alive and V3 or on a fresh one.",
+                "reassembly premises of C04 (every response that arrives is delivered) and the session discipline of C07 (re-authentication on V3) are re-run as premises. A handshake is offered only on a connection found alive and V3 or on a fresh one. The credentials are cached in the atomic section in which the handshake succeeded (no cancellation point before the stores).",
         "note": TRUST + "timing relative to the 2 s read timeout and success of the following exchange on a real socket are not decided",
         "technique": "conditional-constant exploration of retry-loop automata + must-pass-through + may-raise effects (static analysis)",
     },
@@ -130,7 +130,7 @@ CLAIMS = {
         "text": "Typestate decided as invariants each call re-establishes: the data write in LAN.send is dominated by not-V3 / authenticated "
                 "/ completed authenticate(); single data-write and handshake-write sites; key guard in the encoder; session state is "
                 "per-instance and the factory constructs a fresh protocol per connection; counter' = (counter+1) mod 2^k, k ≤ 16, serialised as 2 bytes big-endian by both V3 encoders (layout domain); "
-                "`authenticated` and `_alive` lifetime predicates have the right polarity and constants (12 h). An assert is not taken for the handshake; C06's who-writes / proof obligations are imported. The device layer awaits its exchanges one at a time (no gather / task over sends on one connection).",
+                "`authenticated` and `_alive` lifetime predicates have the right polarity and constants (12 h). An assert is not taken for the handshake; C06's who-writes / proof obligations are imported. The device layer awaits its exchanges one at a time (no gather / task over sends on one connection). Only the constructor and write() store the packet counter (a re-handshake does not rewind it).",
         "note": TRUST + "wall-clock behaviour is not decided; histories need no enumeration because each clause is a per-call invariant",
         "technique": "must-pass-through typestate + who-may-call + value-flow/affine-mod reasoning (static analysis)",
     },
@@ -139,7 +139,7 @@ CLAIMS = {
                 "body [40:-16], port [4:6] LE unsigned, sn [8:40], name [41:41+n], type from the name) and compared with the reply format; ip comes "
                 "from the datagram source and version from the detected version; Device stores and returns every field unchanged; version "
                 "and class dispatch tables; DISCOVERY_MSG folds to a self-consistent signed 72-byte packet sent to 6445/20086; discover() listens for the whole timeout on every path; the per-host "
-                "containment obligations of C18 are re-run as premises (another host's reply cannot abort the run).",
+                "containment obligations of C18 are re-run as premises (another host's reply cannot abort the run). None of the callbacks asyncio runs while discover() listens closes the transport.",
         "note": TRUST + "the reply format table (matches the two captured replies pinned by the tests)",
         "technique": "value-flow range/provenance analysis + constant folding (static analysis)",
     },
@@ -148,7 +148,7 @@ CLAIMS = {
                 "APP_KEY); bodies carry the stored sessionId and stamp; the login password derivation of both clouds (SmartHome: salted with the login key of the selected server); get_token returns token/key of the "
                 "very element compared equal to the requested udpid, else CloudError; _post_request explored for budgets 1..3 with the HTTP "
                 "client as oracle (attempts ≤ R, every exceptional exit a CloudError); both byte orders tried with the credentials fetched "
-                "for that order's udpid; the cloud client is cached for reuse only after login() completed. Every network failure of Device.authenticate is an AuthenticationError (C06.d), so both byte orders are tried.",
+                "for that order's udpid; the cloud client is cached for reuse only after login() completed. Every network failure of Device.authenticate is an AuthenticationError (C06.d), so both byte orders are tried. discover() drops the cloud client of an earlier run unless region, account and password are all compared equal.",
         "note": TRUST + "acceptance by the real cloud service; JSON/KeyError on malformed server answers are outside the property",
         "technique": "value-flow provenance + retry-loop exploration (static analysis)",
     },
@@ -157,7 +157,7 @@ CLAIMS = {
                 "network call, conversion is reached only for existing writable properties, the stored value's decision tree has exactly the "
                 "documented leaves (enum by value / raw int only for FanSpeed / by upper-cased name, bool via capitalised literal, number via "
                 "the default's type), every writable property has a non-None convertible default, and refresh → pop display → toggle-if-"
-                "different → setattr → apply-if-pending ordering holds; manual connect uses port 6444. No handler or exiting finally between _control and the interpreter replaces its exit status. A catch-all handler in the runner re-raises or exits non-zero; deprecated aliases read the same default.",
+                "different → setattr → apply-if-pending ordering holds; manual connect uses port 6444. No handler or exiting finally between _control and the interpreter replaces its exit status. A catch-all handler in the runner re-raises or exits non-zero; deprecated aliases read the same default. The reassembly premises of C04 are re-run: a display toggle whose reply is lost on the way up would be retransmitted, and a toggle is not idempotent.",
         "note": TRUST + "argparse and README prose beyond these clauses; clause (d) is partly idiom-pinned (.upper() / .capitalize()), stated in DESIGN.md",
         "technique": "may/must event (dominance) analysis + value-flow decision-tree extraction + inventory (static analysis)",
     },
@@ -177,7 +177,7 @@ CLAIMS = {
                 "states, then C10's abstract round trip to the vendor decode; C11's decode chain back to the getters; value-flow "
                 "connectivity of _send_command / LAN.send / _read / drains / V3 write+read; every response of an exchange reaches "
                 "_update_state (the valid list is returned as collected: no filtering, de-duplication or truncation), whose stores are overwrite-only; both data_received implementations satisfy the reassembly premises; the "
-                "transport obligations of C02/C04/C05/C12 are re-run, not assumed. C13's (and through it C14's) obligations are imported: every valid frame of an exchange is used, every invalid one only dropped.",
+                "transport obligations of C02/C04/C05/C12 are re-run, not assumed. C13's (and through it C14's) obligations are imported: every valid frame of an exchange is used, every invalid one only dropped. The pre-send drain and the first transmission lie in one atomic section (suspension-point analysis: no await / async for / async with between them), and the frames of an exchange are returned in arrival order.",
         "note": TRUST + "AES/MD5/SHA behave as specified; byte equality through the ciphers and real TCP schedules are not explored (not needed: "
                 "receive callbacks are sequential)",
         "technique": "compositional static analysis: def-use chains + abstract round trips + reassembly-invariant premises",
